@@ -21,6 +21,18 @@ Theorem T06_fusion_rule : forall ci legs qconj srt bun t, legs_ok legs -> idx_ok
     nth I (map snd (p_blocks p)) [] = make_valid ci (vscale qconj (vsum (length ci) (tuple_charges legs qs))).
 Proof. exact fusion_rule. Qed.
 
+(* layout of q_map: row j = [b_j, b_{j+1}, I_s, i_1..i_n] with b_{j+1} - b_j = size of the incoming block tuple, the slice lies
+   inside the outgoing block I_s, one row per (sorted) block tuple *)
+Theorem T06_qmap_shape : forall ci legs qconj srt bun j, legs_ok legs ->
+  let p := pipe_init ci legs qconj srt bun in
+  (j < length (p_rows p))%nat ->
+  let qr := nth j (p_qmap p) (mkQ 0 0 O []) in
+  let osz := map fst (p_blocks p) in
+  0 <= q_b0 qr /\ q_b1 qr = q_b0 qr + r_sz (nth j (p_rows p) row0) /\
+  offs osz (q_Is qr) + q_b1 qr <= offs osz (S (q_Is qr)) /\ q_q qr = r_q (nth j (p_rows p) row0) /\
+  length (p_qmap p) = length (p_rows p).
+Proof. exact qmap_shape. Qed.
+
 (* with sort=True (and at least one charge) the incoming block tuples are processed in lexsorted order *)
 Theorem T06_pipe_sorted : forall ci legs qconj, ci <> [] -> Sorted rle (pipe_rows ci legs qconj true).
 Proof. exact pipe_rows_sorted. Qed.
@@ -75,6 +87,7 @@ Proof. vm_compute. repeat split. Qed.
 
 Print Assumptions T06_flat_bijection.
 Print Assumptions T06_fusion_rule.
+Print Assumptions T06_qmap_shape.
 Print Assumptions T06_pipe_sorted.
 Print Assumptions T06_get_qindex.
 Print Assumptions T06_get_qindex_inverse.
